@@ -69,7 +69,10 @@ for d in sorted(glob.glob('/verif/seeded/*/')):
 md = ["| seeded change | what it does | check | outcome | reported as | strengthening |", "|---|---|---|---|---|---|"]
 for sid, chk, seen, kind, st, s in rows:
     md.append("| `%s` | %s | %s | %s | %s | %s |" % (sid, s.replace('|', '/'), chk, seen, kind.replace('|', '/'), st.replace('|', '/') or "—"))
-block = "<!-- SEEDED-TABLE-BEGIN -->\n" + "\n".join(md) + "\n<!-- SEEDED-TABLE-END -->"
+n_missed = sum(1 for r in rows if r[2].startswith("missed"))
+n_open = sum(1 for r in rows if r[2] == "missed")
+summary = "%d seeded changes: %d caught by the checks as they stood, %d missed at first and caught after the strengthening named in the last column, %d still missed." % (len(rows), len(rows) - n_missed, n_missed - n_open, n_open)
+block = "<!-- SEEDED-TABLE-BEGIN -->\n" + summary + "\n\n" + "\n".join(md) + "\n<!-- SEEDED-TABLE-END -->"
 p = '/verif/DESIGN.md'
 t = open(p).read()
 if '<!-- SEEDED-TABLE-BEGIN -->' in t:
